@@ -3,5 +3,6 @@ EXTENDS Builder
 DevNone == {}
 DevPinned == {"DpdCacheAliasing"}
 DevNoReset == {"NoReset"}
+DevResetAtEnd == {"ResetAtEnd"}
 \* bound the configuration space explored exhaustively: at most one builder has assigned dynamics
 =============================================================================
